@@ -30,6 +30,12 @@ def showBar (b : Bar) : String :=
 
 def cmdData (toks : List String) : Option String :=
   match toks with
+  | "MERGECAL" :: k :: rest =>
+      let rec go (n : Nat) (r : List String) (acc : List (List Nat)) : List (List Nat) :=
+        match n with
+        | 0 => acc.reverse
+        | n + 1 => let (c, r') := takeN r; go n r' (c.map pN :: acc)
+      some (joinSp ((mergeCals (go (pN k) rest [])).map toString))
   | "CAL" :: rest =>
       let (cs, r) := takeN rest
       let cal := cs.map pN
